@@ -358,3 +358,90 @@ Section Rendering.
     do objs <- Parser.parse orc text;
     extract_obj pyeval expanduser (Scp (plain_hdr []) objs []).
 End Rendering.
+
+(* ---------- well-formedness for extraction (hypothesis of Proofs/ExtractTotal.v, evaluated on wire trees by
+   EntryExtract.run_extractwf).  The extraction is run on SHAPES instead of values: what __phil_set__ / __phil_join__
+   look at is only whether a value is a scope_extract (with which fields), a scope_extract_list, the placeholder None
+   of a disabled object, or anything else.  extract_wf o = true iff no step meets a combination that raises. *)
+Inductive shp := HFlat | HNone | HSList | HScope (fs:list (str * shp)).
+Definition sfields := list (str * shp).
+
+
+(* __phil_join__ on shapes; None = a combination that raises *)
+Fixpoint ajoin_s (o:shp) (self:sfields) {struct o} : option sfields :=
+  match o with
+  | HScope ofs =>
+      (fix go (l:sfields) (self:sfields) {struct l} : option sfields :=
+         match l with
+         | [] => Some self
+         | (key, os) :: r =>
+             if Parser.reserved key then go r self else
+             match aget key self with
+             | None | Some HFlat | Some HNone => go r (aset key os self)
+             | Some HSList => match os with HSList => go r self | _ => None end
+             | Some (HScope sf0) =>
+                 match os with
+                 | HScope _ => match ajoin_s os sf0 with Some sf1 => go r (aset key (HScope sf1) self) | None => None end
+                 | HSList => go r self
+                 | _ => None
+                 end
+             end
+         end) ofs self
+  | _ => None
+  end.
+Definition ajoin (ofs:sfields) (self:sfields) : option sfields := ajoin_s (HScope ofs) self.
+(* __phil_set__ on shapes (value None = the disabled marker); None = a combination that may raise.
+   A flat value under a .multiple object is refused although a plain list or None would do: shapes do not tell them apart *)
+Definition aphil_set (fs:sfields) (name:str) (multiple:bool) (value:option shp) : option sfields :=
+  if has_dot name then None else
+  if negb multiple then
+    match value, aget name fs with
+    | None, Some _ => Some fs
+    | None, None => Some (aset name HNone fs)
+    | Some (HScope of0), Some (HScope sf0) =>
+        match ajoin of0 sf0 with Some sf1 => Some (aset name (HScope sf1) fs) | None => None end
+    | Some s, _ => Some (aset name s fs)
+    end
+  else
+    match aget name fs with
+    | None | Some HNone => Some (aset name HSList fs)
+    | Some HSList => Some fs
+    | Some HFlat => None
+    | Some (HScope _) => match value with None => Some fs | Some _ => None end
+    end.
+
+(* the types whose from_words reads words[0] for an error message / asserts a non-empty list *)
+Definition needs_words (a:attrs) : bool :=
+  match get_attr (s_ "type") a with
+  | AType (TyBool | TyInt _ _ _ | TyInts _ _ _ _ _ _ | TyChoice _) => true
+  | _ => false
+  end.
+Definition def_wf (ws:list word) (a:attrs) : bool :=
+  negb (needs_words a) || negb (match ws with [] => true | _ => false end).
+
+
+(* scope.extract on shapes *)
+Fixpoint ashape (o:obj) : option shp :=
+  match o with
+  | Def _ ws a => if def_wf ws a then Some HFlat else None
+  | Scp _ ks _ =>
+      option_map HScope
+        ((fix go (l:list obj) (acc:sfields) {struct l} : option sfields :=
+            match l with
+            | [] => Some acc
+            | k :: r =>
+                if (otmpl (ohdr k) <? 0)%Z then go r acc else
+                match (if odis (ohdr k) || (0 <? otmpl (ohdr k))%Z then Some None
+                       else match ashape k with Some s => Some (Some s) | None => None end) with
+                | None => None
+                | Some value =>
+                    match aphil_set acc (oname (ohdr k)) (omultiple k) value with
+                    | Some acc' => go r acc'
+                    | None => None
+                    end
+                end
+            end) ks [])
+  end.
+(* the well-formedness predicate: the extraction on shapes goes through *)
+Definition extract_wf (o:obj) : bool := match ashape o with Some _ => true | None => false end.
+
